@@ -172,7 +172,8 @@ func LoadArchiveFiles(in io.Reader) ([]*BufferedFile, error) {
 			// In this case, the original path was relative when it should have been absolute.
 			return nil, errors.Errorf("chart illegally contains content outside the base directory: %q", hd.Name)
 		}
-		if strings.HasPrefix(n, "..") {
+		// the path is clean: it leaves the chart only if its first element is ".." (a name like "..data" does not)
+		if n == ".." || strings.HasPrefix(n, "../") {
 			return nil, errors.New("chart illegally references parent directory")
 		}
 
